@@ -255,6 +255,16 @@ func GetAttrString(self Object, key string) (res Object, err error) {
 		dict := I.GetDict()
 		res, ok = dict[key]
 		if ok {
+			// A type made in Go which was never made ready (one created
+			// outside of package py: it has no MRO) keeps its methods in
+			// this dictionary: bind them as above
+			if cls := staticTypeOrNil(self); cls != nil {
+				if _, isProperty := res.(*Property); !isProperty {
+					if I, ok := res.(I__get__); ok {
+						return I.M__get__(None, cls)
+					}
+				}
+			}
 			return res, err
 		}
 	}
